@@ -88,6 +88,10 @@ func genTable(r *hutil.Rng, name string) *Table {
 		c.Nullable = r.Chance(1, 2)
 		t.Cols = append(t.Cols, c)
 	}
+	if len(t.Keys) == 2 && t.Keys[0].Typ == "VARCHAR" {
+		// a column to select many rows by (the keys are character strings)
+		t.Cols[len(t.Cols)-1] = Col{Name: t.Cols[len(t.Cols)-1].Name, Typ: "INT"}
+	}
 	return t
 }
 
@@ -261,6 +265,9 @@ func (g *genCtx) genCond(t *Table, own func(i int) bool) *Cond {
 		}
 	}
 	k := r.Intn(10)
+	if g.ranges && len(t.Keys) == 2 && t.Keys[0].Typ == "VARCHAR" && len(intCols) > 0 && r.Chance(1, 2) {
+		return &Cond{Kind: "ge", Col: intCols[len(intCols)-1], Lo: -1000} // all rows: images whose joined key texts may collide
+	}
 	if k >= 5 && k < 7 && len(t.Keys) == 1 {
 		c := &Cond{Kind: "pkin"}
 		for j := 0; j < 1+r.Intn(3); j++ {
